@@ -12,6 +12,9 @@ SPEC = {
         'AITB.POMDP.alpha_backup_exact',
         'AITB.POMDP.backup_members_le_expectimax',
         'AITB.POMDP.incremental_pruning_exact',
+        'AITB.POMDP.bestBackupAt_mem',
+        'AITB.POMDP.bestBackupAt_value',
+        'AITB.POMDP.witness_points_exact',
         'AITB.POMDP.obs_prob_sum',
         'AITB.POMDP.expectimaxT_le',
         'AITB.POMDP.rtLoop_spec',
